@@ -165,6 +165,52 @@ func main() {
 			}
 		}
 	}
+	// second pass: the uniquely named shared fields must not be touched from anywhere else (another
+	// type's method reaching through h.server.…, a free function, …): such an access bypasses the
+	// accessor and is recorded with no guard at all
+	unique := map[string]string{}
+	for _, o := range owners {
+		for f := range o.once {
+			unique[f] = o.typ
+		}
+	}
+	for _, f := range []string{"transportKind", "transportCapabilities", "serveStartHook"} {
+		unique[f] = "Server"
+	}
+	type key struct {
+		file string
+		line int
+		fld  string
+	}
+	seen := map[key]bool{}
+	for _, a := range accs {
+		seen[key{a.File, a.Line, a.Field}] = true
+	}
+	fnames := make([]string, 0, len(funcs))
+	for k := range funcs {
+		fnames = append(fnames, k)
+	}
+	sort.Strings(fnames)
+	for _, fk := range fnames {
+		fd := funcs[fk]
+		ast.Inspect(fd.Body, func(nd ast.Node) bool {
+			sel, ok := nd.(*ast.SelectorExpr)
+			if !ok {
+				return true
+			}
+			typ, isU := unique[sel.Sel.Name]
+			if !isU {
+				return true
+			}
+			k := key{srcOf[fk], fset.Position(sel.Pos()).Line, typ + "." + sel.Sel.Name}
+			if seen[k] {
+				return true
+			}
+			seen[k] = true
+			accs = append(accs, access{Access: lockset.Access{File: k.file, Func: fk, Field: k.fld, Line: k.line}})
+			return true
+		})
+	}
 	sort.SliceStable(accs, func(i, j int) bool {
 		if accs[i].File != accs[j].File {
 			return accs[i].File < accs[j].File
